@@ -22,6 +22,7 @@ import (
 	"verif.local/harness/lb"
 	"verif.local/harness/wx"
 	"verif.local/vrt"
+	"verif.local/vrt/vctx"
 )
 
 type flavour int
@@ -84,6 +85,7 @@ type faults struct {
 func unavailable() error { return status.Error(codes.Unavailable, "transport is closing") }
 
 func (f *faults) WatchCall(n int) error {
+	vrt.TouchKey("c13.faults", true)
 	if n == 0 {
 		return nil
 	}
@@ -95,6 +97,7 @@ func (f *faults) WatchCall(n int) error {
 }
 
 func (f *faults) fail(n, idx int, lost bool) error {
+	vrt.TouchKey("c13.faults", true) // the plan's counters and the writer's progress are shared with main
 	hit := false
 	if n == 0 {
 		hit = idx == f.p.failIdx && lost == f.p.lost
@@ -227,7 +230,7 @@ type swappable struct{ state.CoreState }
 const nWrites = 6
 
 func body(p plan, x *explore.X) {
-	ctx, cancel := context.WithCancel(context.Background())
+	ctx, cancel := vctx.WithCancel(context.Background())
 	tolerant = p.special == "restart"
 	total := nWrites
 	if p.writes > 0 {
@@ -294,7 +297,11 @@ func body(p plan, x *explore.X) {
 		}
 	}
 	drain()
-	for done < total+p.outageW {
+	for {
+		vrt.TouchKey("c13.faults", true)
+		if done >= total+p.outageW {
+			break
+		}
 		write(ctx, bst, done)
 		done++
 		drain()
@@ -433,6 +440,7 @@ func schedScenario(p plan, bounds []int) explore.Scenario {
 		Name:   "schedules/" + p.String(),
 		Desc:   "all schedules up to the preemption bound of client adapter, in-process transport, server handler, watch goroutines and writer for the fault plan " + p.String(),
 		Bounds: bounds,
+		HB:     true,
 		Body:   func(x *explore.X) { body(p, x) },
 	}
 }
@@ -442,21 +450,24 @@ func build(tier string) []explore.Scenario {
 	for fl := flavour(0); fl < nFlavours; fl++ {
 		out = append(out, detScenario(fl))
 	}
-	b := []int{0, 1}
+	// with happens-before pruning every flavour gets its schedule exploration, one bound deeper
+	b := []int{0, 1, 2}
 	if tier == "thorough" {
-		b = []int{0, 1, 2}
+		b = []int{0, 1, 2, 3}
 	}
-	for _, p := range []plan{
-		{fl: fKind, failIdx: 1, lost: true, outageW: 1, writes: 2},
-		{fl: fID, failIdx: 2, lost: false, estFail: 1, outageW: 1, writes: 2},
-		{fl: fAggBoot, failIdx: 2, lost: true, writes: 2},
-	} {
-		sc := schedScenario(p, b)
-		sc.MaxExecs = 400000
-		if tier == "thorough" {
-			sc.MaxExecs = 10000000
+	for fl := flavour(0); fl < nFlavours; fl++ {
+		for _, p := range []plan{
+			{fl: fl, failIdx: 1, lost: true, outageW: 1, writes: 2},
+			{fl: fl, failIdx: 2, lost: false, estFail: 1, outageW: 1, writes: 2},
+			{fl: fl, failIdx: 2, lost: true, repeat: 1, repeatAt: 2, outageW: 2, writes: 2},
+		} {
+			sc := schedScenario(p, b)
+			sc.MaxExecs = 150000
+			if tier == "thorough" {
+				sc.MaxExecs = 6000000
+			}
+			out = append(out, sc)
 		}
-		out = append(out, sc)
 	}
 	return out
 }
